@@ -164,6 +164,10 @@ func (rn *runner) stepCi(ctx *core.Ctx, op []string) string {
 		report(ctx, o, "chunkinfo-setup-file", "OnChunkTransferred")
 		if o.class == "ok" {
 			e.known[root.String()] = n
+		} else {
+			e.trav.mu.Lock()
+			delete(e.trav.files, root.String())
+			e.trav.mu.Unlock()
 		}
 		return o.class
 	case op[0] == "ci.find" && len(op) == 3:
